@@ -71,7 +71,49 @@ def c03a(chk):
     if f is not None:
         nu = an.calls(f, PROJ + "Projection::new_unchecked")
         fm = [(b, t) for b, t in f.calls() if callee_is(t["callee"], "core::iter::traits::iterator::Iterator::find_map", "core::iter::traits::iterator::Iterator::find", "core::iter::traits::iterator::Iterator::position", "core::iter::traits::iterator::Iterator::any")]
-        if len(nu) != 1 or len(fm) != 1:
+        if len(nu) == 1 and len(fm) != 1:
+            # the same validation without a search adaptor (a loop that returns the error for the first axis with from < to, possibly in
+            # an extracted helper): new_unchecked is reached only where `from >= to` held for every zipped axis
+            nb = nu[0][0]
+            its_ = IT.iterations(prog, f)
+            guards = IT.forall_guards(prog, f, its_, nb)
+            dim_ok = False
+            for sb, st in f.switches():
+                s_ = an.switch_subject(f, sb)
+                if s_["kind"] == "value" and s_["root"] is not None:
+                    d_ = f.single_def(s_["root"])
+                    if d_ and d_[0] == "assign" and d_[3]["k"] == "binop" and d_[3]["op"] in ("Eq", "Ne"):
+                        ds_ = [f.single_def(an.origin_local(f, op_local(d_[3][x]))) for x in ("l", "r") if op_local(d_[3][x]) is not None]
+                        if len(ds_) == 2 and all(x and x[0] == "call" and callee_is(x[2]["callee"], COUNT + "::dimensions") for x in ds_):
+                            roots_ = sorted(RG._param_root_owned(f, x[2]["args"][0]) or -1 for x in ds_)
+                            eq_edge = st["otherwise"] if d_[3]["op"] == "Eq" else an.edge_target(st, 0)
+                            dim_ok = an.dominated_by_edge(f, sb, eq_edge, nb) and len(set(roots_)) == 2
+            chk.ob("C03.a", "Projection::new/new_unchecked<=equal-dimensions", dim_ok, f.loc(nb), "the projection is built only when source and target have the same number of axes")
+            good = []
+            for gd in guards:
+                ch_ = gd["it"].chain()
+                zt_ = IT.chain_get(ch_, "zip")
+                if zt_ is None or [n_ for n_ in IT.chain_names(ch_) if n_ not in ("zip", "iter", "enumerate")]:
+                    continue
+                def src_param_(op):
+                    sl_, info_ = f.slice_locals(op)
+                    ps_ = set()
+                    for l_ in sl_:
+                        for dd_ in f.defs.get(l_, []):
+                            if dd_[0] == "call" and callee_is(dd_[2]["callee"], "core::convert::Into::into"):
+                                r_ = f.copy_root(op_local(dd_[2]["args"][0])) if op_local(dd_[2]["args"][0]) is not None else None
+                                ps_.add(r_)
+                    return ps_
+                roles_ = src_param_(zt_["args"][0]) == {1} and src_param_(zt_["args"][1]) == {2}
+                if roles_ and gd["cmp"] in (("Ge", (0,), (1,)), ("Ge", (1, 0), (1, 1))):
+                    good.append(gd)
+            chk.ob("C03.a", "Projection::new/new_unchecked<=no-axis-with-from<to(element-wise)", bool(good), f.loc(nb),
+                   "built only where `from >= to` held for every axis of zip(from, to): %s" % ([(x["how"], x["cmp"]) for x in guards] or "no universal guard recognised"))
+            whole = [callee_name(t["callee"]) for b, t in f.calls() if callee_is(t["callee"], "core::cmp::PartialOrd::ge", "core::cmp::PartialOrd::le", "core::cmp::PartialOrd::lt", "core::cmp::PartialOrd::gt", "core::cmp::Ord::cmp")]
+            chk.ob("C03.a", "Projection::new/no-whole-vector-comparison", not whole, f.loc(), "no comparison of the two counts as wholes (a derived ordering would be lexicographic): %s" % whole)
+            errs = sorted({rv["variant"] for _, _, _, rv, _ in f.assigns() if rv["k"] == "aggregate" and rv.get("adt") == PROJ + "ProjectionError"})
+            chk.ob("C03.a", "Projection::new/error-variants", errs == ["Empty", "InvalidProjection", "UnequalDimensions"], f.loc(), "rejections are reported as %s" % errs, nontrivial=False)
+        elif len(nu) != 1 or len(fm) != 1:
             chk.fail("C03.a", "Projection::new/shape", f.loc(), "expected one new_unchecked call and one element-wise search, found %d / %d" % (len(nu), len(fm)))
         else:
             nb = nu[0][0]
@@ -401,7 +443,97 @@ def c04a(chk):
     if len(fm) == 1:
         ad, info = adaptors_of(f, fm[0][1]["args"][0], fm[0][0])
         dup_iter = sorted(ad) == ["enumerate", "iter"]
-    chk.ob("C04.a", "marginalize/duplicate-test=any-later-position", dup_ok and dup_iter, f.loc(), "for every i the tail axes[i+1..] is searched for axes[i] (closure shape=%s, over all positions=%s)" % (dup_ok, dup_iter))
+    unit_m = [f] + list(cls.values())
+    dup_how = "find_map over enumerate: axes[i+1..].contains(axes[i])"
+    if not (dup_ok and dup_iter):
+        # the same search written as `while let Some((first, rest)) = remaining.split_first() { if rest.contains(first) {..}; remaining = rest }`
+        sf = an.calls(f, "core::slice::<impl [T]>::split_first")
+        cont = [(b, t) for b, t in f.calls() if callee_is(t["callee"], "core::slice::<impl [T]>::contains")]
+        if len(sf) == 1 and len(cont) == 1:
+            sd = an.call_dest_local(sf[0][1])
+
+            def payload_part(op):
+                l = op_local(op)
+                pl = (f.resolve_ptr(l) if l is not None else None) or (op_place(op) if op is not None else None)
+                for _ in range(6):
+                    if pl is None:
+                        return None
+                    if pl[0] == sd:
+                        fl = [e[1] for e in pl[1] if e[0] == "field"]
+                        return fl[-1] if fl else None
+                    d_ = f.single_def(pl[0])
+                    if d_ and d_[0] == "assign" and d_[3]["k"] in ("use", "ref"):
+                        nxt = op_place(d_[3]["op"]) if d_[3]["k"] == "use" else P(d_[3]["place"])
+                        if nxt is None:
+                            return None
+                        pl = (nxt[0], nxt[1] + tuple(e for e in pl[1] if e[0] == "field"))
+                    else:
+                        return None
+                return None
+            hay, needle = payload_part(cont[0][1]["args"][0]), payload_part(cont[0][1]["args"][1])
+            # the slice that is split: starts as the parameter, continues with the tail
+            rl = op_local(sf[0][1]["args"][0])
+            rt = f.resolve_ptr(rl) if rl is not None else None
+            rest_local = rt[0] if rt is not None else (f.copy_root(rl) if rl is not None else None)
+            ds_ = f.defs.get(rest_local, []) if rest_local is not None else []
+            def is_param_axes(op):
+                l = op_local(op)
+                for _ in range(6):
+                    if l is None:
+                        return False
+                    if l == 2:
+                        return True
+                    tg = f.resolve_ptr(l)
+                    if tg is not None:
+                        if tg[0] == 2:
+                            return True
+                        l = tg[0] if all(e == ("deref",) for e in tg[1]) else None
+                        continue
+                    l2 = f.copy_root(l)
+                    if l2 == l:
+                        return False
+                    l = l2
+                return False
+            from_param = any(x[0] == "assign" and x[3]["k"] == "use" and is_param_axes(x[3]["op"]) for x in ds_)
+            from_tail = any(x[0] == "assign" and x[3]["k"] == "use" and payload_part(x[3]["op"]) == 1 for x in ds_)
+            dup_ok = hay == 1 and needle == 0
+            dup_iter = from_param and from_tail and len(ds_) == 2
+            dup_how = "split_first loop: rest.contains(first), continued with the rest"
+    chk.ob("C04.a", "marginalize/duplicate-test=any-later-position", dup_ok and dup_iter, f.loc(), "every axis is searched for in the part of the list after it (%s: test shape=%s, over all positions=%s)" % (dup_how, dup_ok, dup_iter))
+    if not oob_ok:
+        # the same test outside a closure (`for axis in axes { if axis.0 >= dimensions {..} }`, dimensions() hoisted or not)
+        n_cmp = 0
+        for g_ in unit_m:
+            for _, _, _, rv, _ in g_.assigns():
+                if rv["k"] != "binop" or rv["op"] not in ("Ge", "Le", "Lt", "Gt"):
+                    continue
+                def side(op):
+                    l = op_local(op)
+                    if l is None:
+                        return None
+                    r = an.origin_local(g_, l)
+                    d_ = g_.single_def(r)
+                    if d_ and d_[0] == "call" and callee_is(d_[2]["callee"], SP + "dimensions"):
+                        return "dims"
+                    if g_ is not f:
+                        # a value computed outside and captured by the closure
+                        for it_ in IT.iterations(prog, f):
+                            if it_.body is g_:
+                                o_ = it_.outer_root(op)
+                                if o_ is not None:
+                                    dd_ = it_.parent.single_def(an.origin_local(it_.parent, o_))
+                                    if dd_ and dd_[0] == "call" and callee_is(dd_[2]["callee"], SP + "dimensions"):
+                                        return "dims"
+                    sl_, info_ = g_.slice_locals(op, through_calls=False)
+                    if ("sfs_core::array::shape::Axis", "0") in info_["fields"]:
+                        return "axis"
+                    return None
+                ls, rs = side(rv["l"]), side(rv["r"])
+                if {ls, rs} == {"axis", "dims"}:
+                    n_cmp += 1
+                    form = (rv["op"], ls)
+                    oob_ok = form in (("Ge", "axis"), ("Le", "dims"))
+        oob_ok = oob_ok and n_cmp == 1
     chk.ob("C04.a", "marginalize/out-of-range-test=axis>=dimensions", oob_ok, f.loc(), "an axis is out of range iff axis.0 >= self.dimensions()")
     too = False
     for sb, st in f.switches():
@@ -485,7 +617,7 @@ def c04a(chk):
     route_ok = bool(routes) and all(r in ("sorted-copy", "as-given-under-sortedness-test") for r in routes) and "sorted-copy" in routes
     # nothing else rearranges the list: the slice/vector methods used in marginalize are the reviewed ones
     slice_calls = sorted({callee_name(t["callee"]).split("::")[-1] for b, t in f.calls() if callee_name(t["callee"]).startswith(("core::slice::", "alloc::slice::", "alloc::vec::Vec::"))})
-    extra_calls = [c for c in slice_calls if c not in ("iter", "len", "windows", "to_vec", "sort", "sort_unstable", "is_sorted", "is_empty", "as_slice", "deref", "get", "contains")]
+    extra_calls = [c for c in slice_calls if c not in ("iter", "into_iter", "len", "windows", "to_vec", "sort", "sort_unstable", "is_sorted", "is_empty", "as_slice", "deref", "get", "contains", "split_first", "split_last", "first", "last", "split_at")]
     route_ok = route_ok and not extra_calls
     chk.ob("C04.a", "marginalize/sorted-or-sorted-copy", route_ok, f.loc(),
            "every marginalize_unchecked call gets an ascending list: the caller's list only under an adjacent-pair sortedness test (%s), otherwise a copy that was sorted (ascending sort, nothing applied afterwards; other slice operations: %s); routes: %s" % (tests or "none found", extra_calls, routes))
@@ -722,6 +854,11 @@ def check_C05(chk):
 
 
 def c05a(chk):
+    scs_from_array_is_a_wrapper(chk, "C05.a")
+    _c05a(chk)
+
+
+def _c05a(chk):
     prog = chk.prog
     f = chk.fn("sfs::fold::<impl core::convert::From<sfs::fold::Fill> for f64>::from")
     if f is not None:
@@ -815,6 +952,20 @@ def _acc_plus_n_minus_1(acc):
     kind, nm, ops = r
     add = (kind == "binop" and nm.startswith("Add")) or (kind == "call" and nm in ("core::num::<impl usize>::saturating_add",))
     return add and ((is_acc(ops[0]) and is_n_minus_1(ops[1])) or (is_acc(ops[1]) and is_n_minus_1(ops[0])))
+
+
+def scs_from_array_is_a_wrapper(chk, rule):
+    """`Scs::from(Array<f64>)` is how folded, read and summed arrays become spectra: it must hand the array on untouched (a clamp or
+    rescale there silently changes fill values such as -1 and every value read from a file)"""
+    f = chk.fn("<sfs_core::spectrum::Spectrum<sfs_core::spectrum::Counts> as core::convert::From<sfs_core::array::Array<f64>>>::from")
+    if f is None:
+        return
+    calls = [callee_name(t["callee"]) for g_ in [f] + chk.prog.closures_of(f.path) for b, t in g_.calls()]
+    agg = [rv for b, i, p, rv, s in f.assigns() if rv["k"] == "aggregate" and rv.get("adt") == "sfs_core::spectrum::Spectrum" and p[0] == 0]
+    moved = len(agg) == 1 and op_local(agg[0]["ops"][0]) is not None and f.copy_root(op_local(agg[0]["ops"][0])) == 1
+    writes = [pstr(p) for b, i, p, rv, s in f.assigns() if p[1] and p[0] in (1,) ]
+    chk.ob(rule, "Scs::from(Array)/plain-wrapper", moved and not calls and not writes and not list(f.switches()), f.loc(),
+           "the array argument is moved into the spectrum unchanged (calls: %s, stores into the argument: %s)" % (calls, writes))
 
 
 def c05c(chk):
@@ -925,13 +1076,37 @@ def c05d(chk):
         chk.fail("C05.d", "from_spectrum::pass/shape", ps.loc(), "expected one Ord::cmp and one index_sum_from_flat_unchecked in the pass")
         return
     a0 = an.arg_pointee(cl, cmpc[0][1], 0)
-    count_ok = a0 is not None and a0[0] == an.call_dest_local(isum[0][1]) and ps.elem_path(isum[0][1]["args"][1]) == (0,)
-    mid_ok = mid is not None and ps.outer_root(cmpc[0][1]["args"][1]) == mid
+    count_ok = a0 is not None and an.origin_local(cl, a0[0]) == an.call_dest_local(isum[0][1]) and ps.elem_path(isum[0][1]["args"][1]) == (0,)
+    mid_arg = cmpc[0][1]["args"][1]
+    mid_root = ps.outer_root(mid_arg)
+    if mid_root is None:
+        tgt_ = cl.resolve_ptr(op_local(mid_arg)) if op_local(mid_arg) is not None else None
+        mid_root = an.origin_local(cl, tgt_[0]) if tgt_ is not None and not tgt_[1] else None
+    mid_ok = mid is not None and mid_root is not None and an.origin_local(f if ps.kind == "loop" else ps.parent, mid_root) == mid
     chk.ob("C05.d", "pass/decision=cmp(index_sum(i), mid)", count_ok and mid_ok, ps.loc(), "the total allele count of cell i is compared with the mid count (count=%s, mid=%s)" % (count_ok, mid_ok))
 
-    # expression summariser
-    def expr(op, depth=0):
-        if depth > 12:
+    # ---- every path through the per-cell body, evaluated with what the path itself assigned ------------------------------------
+    order_local = an.call_dest_local(cmpc[0][1])
+
+    def is_diag(l):
+        """does the local carry has_diagonal (through copies, an inlined helper's parameter, or a captured variable)?"""
+        r = an.origin_local(cl, l)
+        if ps.kind == "loop":
+            return diag is not None and an.origin_local(f, r) == diag
+        o = ps.outer_root((r, ())) if r is not None else None
+        return diag is not None and o is not None and an.origin_local(ps.parent, o) == diag
+
+    def norm(e):
+        if e[0] in ("Add", "Mul"):
+            return (e[0],) + tuple(sorted((norm(x) for x in e[1:]), key=repr))
+        if e[0] in ("Some",):
+            return (e[0],) + tuple(norm(x) for x in e[1:])
+        return e
+    SUM = norm(("Some", ("Add", ("src", "i"), ("src", "mirror"))))
+    AVG = norm(("Some", ("Add", ("Mul", ("const", "0.5"), ("src", "i")), ("Mul", ("const", "0.5"), ("src", "mirror")))))
+
+    def expr(op, env, depth=0):
+        if depth > 16:
             return ("?",)
         c = an.const_of(cl, op)
         if c is not None and isinstance(c.get("val"), dict) and "f" in c["val"]:
@@ -945,91 +1120,132 @@ def c05d(chk):
             if k == "src":
                 return ("src", {(0,): "i", (1,): "mirror"}.get(ep, "?"))
             return ("?",)
-        d = cl.single_def(l)
-        if d and d[0] == "assign":
-            rv = d[3]
-            if rv["k"] == "use":
-                return expr(rv["op"], depth + 1)
-            if rv["k"] == "binop" and rv["op"] in ("Add", "Mul", "Sub", "Div"):
-                return (rv["op"], expr(rv["l"], depth + 1), expr(rv["r"], depth + 1))
-            if rv["k"] == "aggregate" and rv.get("adt") == "core::option::Option":
-                return (rv["variant"],) + tuple(expr(o, depth + 1) for o in rv["ops"])
+        rv = env.get(l)
+        if rv is None:
+            d = cl.single_def(l)
+            rv = d[3] if d and d[0] == "assign" else None
+        if rv is None:
+            return ("?",)
+        if rv["k"] == "use":
+            return expr(rv["op"], env, depth + 1)
+        if rv["k"] == "binop" and rv["op"] in ("Add", "Mul", "Sub", "Div"):
+            return (rv["op"], expr(rv["l"], env, depth + 1), expr(rv["r"], env, depth + 1))
+        if rv["k"] == "aggregate" and rv.get("adt") == "core::option::Option":
+            return (rv["variant"],) + tuple(expr(o, env, depth + 1) for o in rv["ops"])
         return ("?",)
 
-    def norm(e):
-        if e[0] in ("Add", "Mul"):
-            return (e[0],) + tuple(sorted((norm(x) for x in e[1:]), key=repr))
-        if e[0] in ("Some",):
-            return (e[0],) + tuple(norm(x) for x in e[1:])
-        return e
-    SUM = norm(("Some", ("Add", ("src", "i"), ("src", "mirror"))))
-    AVG = norm(("Some", ("Add", ("Mul", ("const", "0.5"), ("src", "i")), ("Mul", ("const", "0.5"), ("src", "mirror")))))
-    stores = []
-    for b, i, p, rv, s in ps.assigns():
-        k, ep = indexed(p)
-        if k == "dst":
-            val = norm(expr(rv["op"])) if rv["k"] == "use" else ("?",)
-            stores.append((b, ep, val))
-    chk.ob("C05.d", "pass/stores-at-i", len(stores) >= 3 and all(at == (0,) for b, at, v in stores), ps.loc(), "every store goes to dst[i] (targets: %s)" % [at for b, at, v in stores])
-    # src is the argument's array, dst the array that ends up in the result
-    # decision switches
-    osw = dsw = None
-    for sb, st in ps.switches():
-        s = an.switch_subject(cl, sb)
-        if s["kind"] == "discr" and s.get("adt") == "core::cmp::Ordering":
-            osw = (sb, st, s)
-        elif s["kind"] == "value":
-            roots = set()
-            pl = op_place(st["discr"])
-            cands = [pl] if pl is not None else []
-            # the subject may be a tuple field `(_t).1` assembled from a copy of the flag
-            if pl is not None and pl[1] and pl[1][0][0] == "field":
-                d = cl.single_def(pl[0])
-                if d and d[0] == "assign" and d[3]["k"] == "aggregate" and d[3].get("akind") == "tuple":
-                    o = d[3]["ops"][pl[1][0][1]]
-                    cands = [op_place(o)] if op_place(o) is not None else []
-            for c_ in cands:
-                r = ps.outer_root(c_)
-                if r is not None:
-                    roots.add(r)
-            if diag is not None and diag in roots:
-                dsw = (sb, st)
-    if osw is None or dsw is None:
-        chk.fail("C05.d", "pass/decision-switches", ps.loc(), "switches on the Ordering and on has_diagonal not recognised")
-        return
-    sb, st, s = osw
-    vmap = {nm: an.edge_target(st, val) for val, nm in s["variants"].items()}
-    db, dt = dsw
-    d_true, d_false = dt["otherwise"], an.edge_target(dt, 0)
+    entry = ps.some_t if ps.kind == "loop" else 0
+    results = []   # (order variant, diag bool or None, [(target part, value)], [other decisions])
 
-    def store_for(order, dg):
-        cur = vmap[order]
-        seen = 0
-        while seen < 40:
-            seen += 1
-            if cur not in ps.blocks:
-                return None
-            hit = [v for b, at, v in stores if b == cur]
-            if hit:
-                return hit[0]
-            t = cl.term(cur)
-            if t["k"] == "switch":
-                if cur == db:
-                    cur = d_true if dg else d_false
-                else:
-                    return None
-            elif t["k"] in ("goto", "assert", "call", "drop") and t.get("target") is not None:
-                cur = t["target"]
+    def latest(env, l, depth=0):
+        """what the path last assigned to local l (following moves)"""
+        rv = env.get(l)
+        if rv is None:
+            d = cl.single_def(l)
+            rv = d[3] if d and d[0] == "assign" else None
+        if rv is not None and rv["k"] == "use" and depth < 12:
+            l2 = op_local(rv["op"])
+            if l2 is not None:
+                return latest(env, l2, depth + 1)
+        return rv
+
+    def walk(b, env, order, dg, stores_, others, depth):
+        if depth > 400 or len(results) > 64:
+            return
+        if b not in ps.blocks or (ps.kind == "loop" and b == ps.bb):
+            results.append((order, dg, stores_, others))
+            return
+        env = dict(env)
+        stores_ = list(stores_)
+        for st_ in cl.stmts(b):
+            if st_["k"] != "assign":
+                continue
+            pl = P(st_["place"])
+            if not pl[1]:
+                env[pl[0]] = st_["rv"]
             else:
-                return None
-        return None
+                k, ep = indexed(pl)
+                if k == "dst":
+                    val = norm(expr(st_["rv"]["op"], env)) if st_["rv"]["k"] == "use" else ("?",)
+                    stores_.append((ep, val))
+        t = cl.term(b)
+        if t["k"] == "switch":
+            sj = an.switch_subject(cl, b)
+            if sj["kind"] == "discr" and sj["place"] is not None:
+                root = sj["place"][0]
+                fld = [e for e in sj["place"][1] if e[0] == "field"]
+                if fld:
+                    # discriminant of a tuple component `(_t.0)`: the component's source
+                    agg = latest(env, root)
+                    if agg is not None and agg["k"] == "aggregate" and agg.get("akind") == "tuple" and fld[0][1] < len(agg["ops"]) and op_local(agg["ops"][fld[0][1]]) is not None:
+                        root = op_local(agg["ops"][fld[0][1]])
+                src_l = an.origin_local(cl, root)
+                if src_l == order_local or cl.copy_root(root) == order_local:
+                    for val, nm in (sj["variants"] or {}).items():
+                        walk(an.edge_target(t, val), env, nm, dg, stores_, others, depth + 1)
+                    return
+                rv = latest(env, root)
+                if rv is not None and rv["k"] == "aggregate" and rv.get("variant") is not None and sj["variants"]:
+                    # a value the path itself constructed (a private enum returned by an inlined helper): only its own arm is feasible
+                    vals = [v for v, nm in sj["variants"].items() if nm == rv["variant"]]
+                    if len(vals) == 1:
+                        walk(an.edge_target(t, vals[0]), env, order, dg, stores_, others, depth + 1)
+                        return
+                for tgt in sorted(set(cl.succ.get(b, []))):
+                    if cl.term(tgt)["k"] != "unreachable":
+                        walk(tgt, env, order, dg, stores_, others + [cl.loc(b)], depth + 1)
+                return
+            # value switch
+            pl = op_place(t["discr"])
+            root = None
+            if pl is not None:
+                root = pl[0]
+                if pl[1] and pl[1][0][0] == "field":
+                    agg = latest(env, pl[0])
+                    if agg is not None and agg["k"] == "aggregate" and agg.get("akind") == "tuple" and pl[1][0][1] < len(agg["ops"]):
+                        root = op_local(agg["ops"][pl[1][0][1]])
+            if root is not None and is_diag(root):
+                walk(t["otherwise"], env, order, True, stores_, others, depth + 1)
+                walk(an.edge_target(t, 0), env, order, False, stores_, others, depth + 1)
+                return
+            rv = latest(env, root) if root is not None else None
+            if rv is not None and rv["k"] == "use" and rv["op"]["k"] == "const" and isinstance(rv["op"].get("val"), bool):
+                walk(t["otherwise"] if rv["op"]["val"] else an.edge_target(t, 0), env, order, dg, stores_, others, depth + 1)
+                return
+            for tgt in sorted(set(cl.succ.get(b, []))):
+                if cl.term(tgt)["k"] != "unreachable":
+                    walk(tgt, env, order, dg, stores_, others + [cl.loc(b)], depth + 1)
+            return
+        if t["k"] == "call":
+            d_ = an.call_dest_local(t)
+            if d_ is not None:
+                env[d_] = {"k": "call"}
+        nxt = [x for x in cl.succ.get(b, [])]
+        if not nxt:
+            results.append((order, dg, stores_, others))
+            return
+        for tgt in nxt:
+            walk(tgt, env, order, dg, stores_, others, depth + 1)
+    walk(entry, {}, None, None, [], [], 0)
+    all_stores = [x for r in results for x in r[2]]
+    chk.ob("C05.d", "pass/stores-at-i", len(results) >= 3 and all(len(r[2]) == 1 and r[2][0][0] == (0,) for r in results), ps.loc(),
+           "on every path through the per-cell body exactly one store, to dst[i] (paths: %d, store targets per path: %s)" % (len(results), [[x[0] for x in r[2]] for r in results]))
     want = {("Less", True): SUM, ("Less", False): SUM, ("Equal", False): SUM, ("Equal", True): AVG, ("Greater", True): ("None",), ("Greater", False): ("None",)}
-    got = {k: store_for(*k) for k in want}
+    got = {}
+    for order, dg, st_, oth in results:
+        for dgv in ([dg] if dg is not None else [True, False]):
+            key = (order, dgv)
+            val = st_[0][1] if len(st_) == 1 else ("?",)
+            if key in got and got[key] != val:
+                got[key] = ("ambiguous", got[key], val)
+            else:
+                got[key] = val
     for k in sorted(want):
-        chk.ob("C05.d", "pass/table(%s,diag=%s)" % k, got[k] == want[k], ps.loc(),
-               "cell below the fold line -> src[i] + src[mirror]; on an existing diagonal -> 0.5 src[i] + 0.5 src[mirror]; above -> None (found %s)" % (got[k],))
-    others = [b for b, t in ps.switches() if b not in (sb, db)]
-    chk.ob("C05.d", "pass/no-other-branch", not others, ps.loc(), "the only branches are the two of the decision table (no value-dependent shortcut such as skipping zero pairs): extra at %s" % [cl.loc(b) for b in others])
+        chk.ob("C05.d", "pass/table(%s,diag=%s)" % k, got.get(k) == want[k], ps.loc(),
+               "cell below the fold line -> src[i] + src[mirror]; on an existing diagonal -> 0.5 src[i] + 0.5 src[mirror]; above -> None (found %s)" % (got.get(k),))
+    others = sorted({x for r in results for x in r[3]})
+    chk.ob("C05.d", "pass/no-other-branch", not others and all(r[0] is not None for r in results), ps.loc(),
+           "the only decisions in the per-cell body are the comparison with the mid count and the diagonal flag (no value-dependent shortcut such as skipping zero pairs): other decisions at %s" % others)
 
 
 def _on_edge(f, sb, tgt, b):
